@@ -20,6 +20,7 @@ from .common import Machinery, import_virocon
 
 LEVEL = "model_checking"
 ABSENT = -9
+CONDNONE = -8     # 'conditional_on': None written out
 FAMS = ["Weibull", "LogNormal", "Normal", "LogNormalNormFit", "ExponentiatedWeibull", "GeneralizedGamma",
         "VonMises"]
 PARAMS = {"Weibull": ["alpha", "beta", "gamma"], "LogNormal": ["mu", "sigma"], "Normal": ["mu", "sigma"],
@@ -65,12 +66,22 @@ def make_slicer(vc, kind, variant, ctx):
         if skind == "Number":
             return vc.NumberOfIntervalsSlicer(3, min_n_points=20, **kw)
         return vc.PointsPerIntervalSlicer(100, min_n_points=20, **kw)
-    if kind == "UnknownRef":
-        return (vc.WidthOfIntervalSlicer(0.8, reference="middle", min_n_points=20) if variant % 2 else
-                vc.NumberOfIntervalsSlicer(3, reference="centre", min_n_points=20))
-    if kind == "RefWrongType":
-        return (vc.WidthOfIntervalSlicer(0.8, reference=0.5, min_n_points=20) if variant % 2 else
-                vc.NumberOfIntervalsSlicer(3, reference=1, min_n_points=20))
+    skind = ctx["skind"]
+    if kind in ("UnknownRef", "RefWrongType"):
+        if skind == "any":
+            skind = ("Width", "Number", "Points")[variant % 3]
+        ref = 0.5 if kind == "RefWrongType" else {"Width": "middle", "Number": "centre", "Points": "median"}[skind]
+        if skind == "Width":
+            return vc.WidthOfIntervalSlicer(0.8, reference=ref, min_n_points=20)
+        if skind == "Number":
+            return vc.NumberOfIntervalsSlicer(3, reference=ref, min_n_points=20)
+        return vc.PointsPerIntervalSlicer(100, reference=ref, min_n_points=20)
+    if kind == "RangeAboveData":      # the lower limit of value_range lies above every observation (< 2.8)
+        if skind == "any":
+            skind = ("Width", "Number")[variant % 2]
+        if skind == "Width":
+            return vc.WidthOfIntervalSlicer(0.5, value_range=(10.0, 12.0), min_n_points=20)
+        return vc.NumberOfIntervalsSlicer(3, value_range=(10.0, 12.0), min_n_points=20)
     if kind == "TooFew":   # 2 intervals of width 2 over (0.4, 2.8) / the default slicer on 300 rows
         return (vc.WidthOfIntervalSlicer(2.0, min_n_points=20) if variant % 2 else
                 vc.NumberOfIntervalsSlicer(10))
@@ -97,7 +108,9 @@ def build(vc, case, carriers, variant):
                 desc["distribution"] = cls(**{k[2:]: v for k, v in ALLFIXED[fam].items()})
             else:
                 desc["distribution"] = cls()
-        if dm["cond"] != ABSENT:
+        if dm["cond"] == CONDNONE:
+            desc["conditional_on"] = None
+        elif dm["cond"] != ABSENT:
             desc["conditional_on"] = dm["cond"]
         p = dm["params"]
         if p != "Absent":
@@ -122,6 +135,8 @@ def fit_args(case, data):
         d = data[:, :n - 1]
     elif dk == "TooManyCols":
         d = data[:, :n + 1]
+    elif dk == "Ndim3":
+        d = data[:, None, :n]            # shape (300, 1, n): the last axis has the model's dimension
     else:
         d = data[:, 0]
     fk, pos = case["fit"]["kind"], case["fit"]["pos"]
@@ -172,13 +187,35 @@ def compute(vc, case, model, data):
         if ctx["opt"] == "omitted":
             return vc.HighestDensityContour(model, 0.2, limits=limits)
         return vc.HighestDensityContour(model, 0.2, limits=limits, deltas=deltas)
-    if kind in ("pdf", "cdf"):
-        x = np.full((1, n), 1.5)
+    if kind in ("pdf", "cdf", "tpdf"):
+        x = np.full((1, n + 1 if arg.endswith("Surplus") else n), 1.5)
         if arg.endswith("NaN"):
             x[0, pos] = np.nan
         elif arg.endswith("Inf"):
             x[0, pos] = np.inf
+        if kind == "tpdf":
+            tm = vc.TransformedModel(model, transform=lambda y: y, inverse=lambda y: y,
+                                     jacobian=lambda y: np.ones(len(y)))
+            return tm.pdf(x)
         return model.pdf(x) if kind == "pdf" else model.cdf(x)
+    if kind in ("mpdf", "mcdf", "micdf", "ccdf", "cicdf"):
+        bad = np.nan if arg.endswith("NaN") else (np.inf if arg.endswith("Inf") else None)
+        pts = np.array([0.5, 0.6]) if kind in ("micdf", "cicdf") else np.array([1.2, 1.5])
+        given = np.full((2, n), 1.5)
+        if bad is not None:
+            if "Given" in arg:
+                given[1, pos] = bad
+            else:
+                pts[1] = bad
+        if kind == "mpdf":
+            return model.marginal_pdf(pts, pos)
+        if kind == "mcdf":
+            return model.marginal_cdf(pts, pos)
+        if kind == "micdf":
+            return model.marginal_icdf(pts, pos)
+        if kind == "ccdf":
+            return model.conditional_cdf(pts, pos, given)
+        return model.conditional_icdf(pts, pos, given)
     if kind == "ds":
         return vc.DirectSamplingContour(model, 0.2, n=500, deg_step=30, **skw)
     if kind == "and":
@@ -261,7 +298,8 @@ def mal_text(case):
 
 
 def case_key(case):
-    conds = ",".join("-" if d["cond"] == ABSENT else str(d["cond"]) for d in case["dims"])
+    conds = ",".join("-" if d["cond"] == ABSENT else ("None" if d["cond"] == CONDNONE else str(d["cond"]))
+                     for d in case["dims"])
     cx = case["ctx"]
     return (f"n={case['n']} base={case['b']} mal={mal_text(case)} "
             f"op={case['op']['kind']}/{case['op']['arg']} fit={case['fit']['kind']} data={case['data']} cond=[{conds}] "
@@ -296,8 +334,7 @@ def run(ctx):
                    "'UnknownName', 'TooFew', ...) and the stage at which each input is handed to virocon"]
     ctx.assumptions = ["stage order: slicers/description/constructor (1), IntervalSlicer.slice_ on the column of its "
                        "dimension (2), GlobalHierarchicalModel.fit on a 300-row table (3), contour / pdf / cdf (4)",
-                       "'parameters' without 'conditional_on' is outside the enumerated domain (the property does "
-                       "not decide it)",
+                       "'conditional_on': None is only enumerated together with 'parameters'",
                        "an exception counts as a rejection only if it is a ValueError, TypeError, RuntimeError or "
                        "NotImplementedError (the documented classes), not an accidental KeyError/IndexError"]
     # ---- M
@@ -307,6 +344,8 @@ def run(ctx):
     ctx.model_check("Validation", "MC_Validation_mut_allfixed.cfg", expect_violation="RejectedNotComputed", workers=4)
     ctx.model_check("Validation", "MC_Validation_mut_sample.cfg", expect_violation="RejectedNotComputed", workers=4)
     ctx.model_check("Validation", "MC_Validation_mut_slicerkw.cfg", expect_violation="RejectedNotComputed", workers=4)
+    ctx.model_check("Validation", "MC_Validation_mut_lateref.cfg", expect_violation="RejectedNotComputed", workers=4)
+    ctx.model_check("Validation", "MC_Validation_mut_params.cfg", expect_violation="RejectedNotComputed", workers=4)
     # ---- R
     cases = ctx.generate("Validation", ctx.pick("Gen_Validation_quick.cfg", "Gen_Validation_thorough.cfg"))
     cases.sort(key=case_key)
@@ -314,8 +353,9 @@ def run(ctx):
     runner = Runner(vc, ctx.seed)
     recs, rcases = [], []
     for i, c in enumerate(cases):
-        stage1 = any(d["dist"] != "Ok" or d["extra"] or d["slicer"] == "UnknownKwarg" or
-                     (d["cond"] != ABSENT and d["params"] != "Exact") for d in c["dims"])
+        stage1 = any(d["dist"] != "Ok" or d["extra"] or d["slicer"] in ("UnknownKwarg", "UnknownRef", "RefWrongType") or
+                     (d["cond"] not in (ABSENT, CONDNONE) and d["params"] != "Exact") or
+                     (d["cond"] in (ABSENT, CONDNONE) and d["params"] != "Absent") for d in c["dims"])
         rot = (ctx.seed + i) % 7 if stage1 else (ctx.seed + c["b"]) % 7
         rots = [rot]
         if not ctx.quick and len(c["mal"]) <= 1:
@@ -365,7 +405,8 @@ def selftest(ctx, cases, recs, failing):
     m(late, "PrefixAccepted", stage=1, cls="ValueError")           # rejected before the bad input was supplied
     m(good, "AcceptedWhenWellFormed", stage=3, cls="RuntimeError")
     m(hier, "DocumentedClass", cls="IndexError")
-    bad = dict(hier, case=dict(hier["case"], dims=[dict(hier["case"]["dims"][0], params="Exact")] + hier["case"]["dims"][1:]))
+    bad = dict(hier, case=dict(hier["case"], dims=[dict(hier["case"]["dims"][0], cond=CONDNONE, params="Absent")]
+                               + hier["case"]["dims"][1:]))
     m(bad, "InDomain")
     res = ctx.validate("Trace_C18", "Trace_C18_part.cfg", [r for _, r in muts])
     for clause, r in muts:
